@@ -49,8 +49,20 @@ func printfStyle(sig *types.Signature) (int, bool) {
 // verbs as arguments.  Formats using explicit argument indexes or * are only
 // checked for their verbs.
 func verbsFit(format string, nargs int, isErrorf bool) string {
-	n := 0
-	exact := true
+	// fmt's own argument numbering is simulated: each verb takes argument
+	// argNum and advances it; %[n] sets argNum to n first (and numbering goes
+	// on from there); * takes an argument for width or precision.  Every
+	// argument must be used by some verb and no verb may run past the list.
+	used := make([]bool, nargs+1)
+	argNum := 1
+	take := func() string {
+		if argNum < 1 || argNum > nargs {
+			return fmt.Sprintf("a verb refers to argument %d but %d are passed (the notice would contain %%!v(MISSING) or %%!(BADINDEX))", argNum, nargs)
+		}
+		used[argNum] = true
+		argNum++
+		return ""
+	}
 	for i := 0; i < len(format); i++ {
 		if format[i] != '%' {
 			continue
@@ -62,9 +74,26 @@ func verbsFit(format string, nargs int, isErrorf bool) string {
 		if format[i] == '%' {
 			continue
 		}
-		for i < len(format) && strings.ContainsRune("+-# 0123456789.*[]", rune(format[i])) {
-			if format[i] == '*' || format[i] == '[' {
-				exact = false
+		for i < len(format) && strings.ContainsRune("+-# 0123456789.*[", rune(format[i])) {
+			switch format[i] {
+			case '*':
+				if m := take(); m != "" {
+					return m
+				}
+			case '[':
+				j := strings.IndexByte(format[i:], ']')
+				if j < 0 {
+					return "unterminated %[ in a constant format"
+				}
+				n := 0
+				for _, c := range format[i+1 : i+j] {
+					if c < '0' || c > '9' {
+						return "bad argument index in a constant format"
+					}
+					n = n*10 + int(c-'0')
+				}
+				argNum = n
+				i += j
 			}
 			i++
 		}
@@ -78,10 +107,14 @@ func verbsFit(format string, nargs int, isErrorf bool) string {
 		if v == 'w' && !isErrorf {
 			return "%w is only interpreted by fmt.Errorf; here the notice would contain %!w(...)"
 		}
-		n++
+		if m := take(); m != "" {
+			return m
+		}
 	}
-	if exact && n != nargs {
-		return fmt.Sprintf("constant format has %d verbs but %d arguments are passed (the notice would contain %%!v(MISSING) or %%!(EXTRA ...))", n, nargs)
+	for k := 1; k <= nargs; k++ {
+		if !used[k] {
+			return fmt.Sprintf("argument %d of %d is used by no verb of the constant format (it would be missing from the notice, or appear as %%!(EXTRA ...))", k, nargs)
+		}
 	}
 	return ""
 }
